@@ -25,8 +25,9 @@
    - Journals are reduced to their [dirties] sets (snapshot/revert is C09).
    - Pure reads do not insert clean objects into the live maps (the code does;
      a clean cached object equals the decoded trie entry).
-   - [copy_flags] selects between the code as it is and the repaired code for
-     the two findings of this property (see Properties.v). *)
+   - [copy_flags] selects between the copy code before and after the repair of
+     the two findings of this property (see Properties.v); the harness reads
+     from the source of the working tree which variant it has. *)
 From Coq Require Export List NArith Bool.
 Export ListNotations.
 Open Scope N_scope.
